@@ -19,10 +19,20 @@ def run(prop, tier):
     try:
         model = Model()
         ctx = Ctx(prop, tier, model)
-        mod.run(ctx)
-        floors = getattr(mod, "FLOORS", {})
         from .report import load_known
         known = {e["key"] for e in load_known() if e.get("property") == prop and e.get("status") == "known"}
+        incomplete = None
+        try:
+            mod.run(ctx)
+        except AnalysisError as e:
+            # a violation that has already been established stands, whatever the rest of the analysis could not interpret;
+            # without one the run is analysis-broken (exit 2) as before
+            if not any(f.key not in known for f in ctx.findings):
+                raise
+            incomplete = str(e)
+            ctx.note("analysis incomplete after the finding(s) below: %s" % incomplete)
+            print("ANALYSIS-INCOMPLETE property=%s %s" % (prop, incomplete))
+        floors = getattr(mod, "FLOORS", {})
         if not any(f.key not in known for f in ctx.findings):
             # a run that already reports an unlisted finding is a violation; the floors guard against vacuous PASSES only
             for rid, n in floors.items():
